@@ -609,7 +609,11 @@ impl<'a, B: BitmapSlice> VolatileSlice<'a, B> {
         // operations such as copy with read_volatile and write_volatile?
         unsafe {
             let count = min(self.size, slice.size);
-            copy(self.addr, slice.addr, count);
+            // Access both sides through pointer guards, like every other accessor, so that
+            // memory which is only mapped on demand (Xen grants) is mapped during the copy.
+            let src = self.ptr_guard();
+            let dst = slice.ptr_guard_mut();
+            copy(src.as_ptr(), dst.as_ptr(), count);
             slice.bitmap.mark_dirty(0, count);
         }
     }
@@ -1239,7 +1243,10 @@ where
         // operations such as copy with read_volatile and write_volatile?
         unsafe {
             let count = min(self.len() * self.element_size(), slice.size);
-            copy(self.addr, slice.addr, count);
+            // See `VolatileSlice::copy_to_volatile_slice`.
+            let src = self.ptr_guard();
+            let dst = slice.ptr_guard_mut();
+            copy(src.as_ptr(), dst.as_ptr(), count);
             slice.bitmap.mark_dirty(0, count);
         }
     }
